@@ -807,6 +807,9 @@ struct Ev {
     /// first value of a key as the one that counts (that is how event properties shadow ambient ones), so these must
     /// change nothing
     shadow: bool,
+    /// while this event is being formatted and encoded on the emitting thread, one of its property values (its `Display`
+    /// implementation logs) emits the next event through the same emitter
+    reenter: bool,
 }
 
 fn route(ev: &Ev, signals: &BTreeSet<Signal>) -> Option<Signal> {
@@ -822,7 +825,24 @@ fn route(ev: &Ev, signals: &BTreeSet<Signal>) -> Option<Signal> {
     None
 }
 
-fn emit_one(otlp: &emit_otlp::Otlp, ev: &Ev, n: u64) {
+/// A property value whose `Display` implementation emits another event through the same emitter (once).
+struct Reenter<'a> {
+    otlp: &'a emit_otlp::Otlp,
+    ev: &'a Ev,
+    n: u64,
+    done: std::cell::Cell<bool>,
+}
+
+impl std::fmt::Display for Reenter<'_> {
+    fn fmt(&self, f: &mut std::fmt::Formatter) -> std::fmt::Result {
+        if !self.done.replace(true) {
+            emit_one(self.otlp, self.ev, self.n, None);
+        }
+        f.write_str("a value that logs while it is shown")
+    }
+}
+
+fn emit_one(otlp: &emit_otlp::Otlp, ev: &Ev, n: u64, nested: Option<(&Ev, u64)>) {
     let base = Duration::from_secs(1_700_000_000 + n);
     let ts = emit::Timestamp::from_unix(base).unwrap();
     let ts2 = emit::Timestamp::from_unix(base + Duration::from_millis(250)).unwrap();
@@ -854,6 +874,7 @@ fn emit_one(otlp: &emit_otlp::Otlp, ev: &Ev, n: u64) {
     let trace_id = emit::TraceId::from_u128(0x0123_4567_89ab_cdef_0123_4567_89ab_cdefu128 + n as u128).unwrap();
     let span_id = emit::SpanId::from_u64(0x0123_4567_89ab_cdefu64 + n).unwrap();
     let (trace_text, span_text) = (trace_id.to_string(), span_id.to_string());
+    let reenter = nested.map(|(ev, n)| Reenter { otlp, ev, n, done: std::cell::Cell::new(false) });
     let mut props: Vec<(&str, emit::Value)> = vec![("marker", emit::Value::from(ev.marker.as_str()))];
     if !filler.is_empty() {
         props.push(("payload", emit::Value::from(filler.as_str())));
@@ -967,8 +988,17 @@ fn emit_one(otlp: &emit_otlp::Otlp, ev: &Ev, n: u64) {
         1 => emit::path!("other_scope"),
         _ => emit::path!("sim::otlp::nested::deeper"),
     };
+    if let Some(r) = reenter.as_ref() {
+        props.push(("note", emit::Value::from_display(r)));
+    }
     let evt = emit::Event::new(mdl, emit::Template::literal("simulated event"), extent, &props[..]);
     otlp.emit(&evt);
+    if let Some(r) = reenter.as_ref() {
+        if !r.done.get() {
+            // nothing looked at the value (no configured signal takes the outer event): the inner event is emitted all the same
+            emit_one(otlp, r.ev, r.n, None);
+        }
+    }
 }
 
 // ---------------------------------------------------------------------------------------------
@@ -1084,6 +1114,7 @@ impl Engine for OtlpSim {
                     payload: 0,
                     noisy: false,
                     shadow: false,
+                    reenter: false,
                 });
                 continue;
             }
@@ -1143,6 +1174,7 @@ impl Engine for OtlpSim {
                 payload,
                 noisy,
                 shadow: c14 && ch.chance(1, 5),
+                reenter: !big && ch.chance(1, 10),
             });
         }
         // client program
@@ -1270,16 +1302,28 @@ impl Engine for OtlpSim {
                     Box::new(move || {
                         let otlp = otlp;
                         let mut emitted = 0usize;
+                        let mut emitted_ix: BTreeSet<usize> = BTreeSet::new();
                         for step in steps {
                             if sc.aborted() {
                                 return;
                             }
                             match step {
+                                Step::Emit(i) if emitted_ix.contains(&i) => {}
                                 Step::Emit(i) => {
                                     sc.set_nonblocking(Some("Otlp::emit"));
-                                    emit_one(&otlp, &events[i], i as u64);
+                                    let nested = if events[i].reenter && i + 1 < events.len() && !emitted_ix.contains(&(i + 1)) { Some(i + 1) } else { None };
+                                    emit_one(&otlp, &events[i], i as u64, nested.map(|j| (&events[j], j as u64)));
                                     sc.set_nonblocking(None);
+                                    if let Some(j) = nested {
+                                        // accepted first: it was emitted while the outer event was still being encoded
+                                        emitted += 1;
+                                        emitted_ix.insert(j);
+                                        clog.lock().unwrap().emitted.push((j, sc.now()));
+                                        sc.probe("event_emitted_from_inside_the_encoding_of_another");
+                                        sc.log(format!("emitted {} from inside the formatting of {} ({:?}/{:?}/{:?})", events[j].marker, events[i].marker, events[j].kind, events[j].ext, events[j].mval));
+                                    }
                                     emitted += 1;
+                                    emitted_ix.insert(i);
                                     clog.lock().unwrap().emitted.push((i, sc.now()));
                                     sc.log(format!("emitted {} ({:?}/{:?}/{:?}/agg {:?}, {} payload bytes{}{})", events[i].marker, events[i].kind, events[i].ext, events[i].mval, events[i].agg, events[i].payload, if events[i].noisy { ", incompressible" } else { "" }, if events[i].shadow { ", well-known keys shadowed" } else { "" }));
                                 }
@@ -1287,7 +1331,7 @@ impl Engine for OtlpSim {
                                 Step::Burst(from, to) => {
                                     sc.set_nonblocking(Some("Otlp::emit"));
                                     for i in from..to {
-                                        emit_one(&otlp, &events[i], i as u64);
+                                        emit_one(&otlp, &events[i], i as u64, None);
                                         emitted += 1;
                                         clog.lock().unwrap().emitted.push((i, sc.now()));
                                     }
